@@ -182,6 +182,7 @@ type windowTrace struct {
 }
 
 type pathAbs struct {
+	live  string // base name of the live file inside the state directory ("" = db.json)
 	state string
 	idx   map[string]int
 	other map[string]int
@@ -192,7 +193,11 @@ func (pa *pathAbs) abs(cwd, p string) (coq string, inState bool, isLive bool) {
 		p = filepath.Join(cwd, p)
 	}
 	p = filepath.Clean(p)
-	if p == filepath.Join(pa.state, "db.json") {
+	liveName := pa.live
+	if liveName == "" {
+		liveName = "db.json"
+	}
+	if p == filepath.Join(pa.state, liveName) {
 		return "Live", true, true
 	}
 	if filepath.Dir(p) == pa.state {
@@ -218,8 +223,13 @@ func parseOctal(s string) uint64 {
 
 // abstractWindow restricts the parsed trace to the marker window and the state directory.
 func abstractWindow(lines []sysLine, state, cwd string) windowTrace {
+	return abstractWindowLive(lines, state, cwd, "db.json")
+}
+
+// abstractWindowLive: the same for another live file name in the state directory (the client's cache file).
+func abstractWindowLive(lines []sysLine, state, cwd, liveName string) windowTrace {
 	var w windowTrace
-	pa := &pathAbs{state: filepath.Clean(state), idx: map[string]int{}, other: map[string]int{}}
+	pa := &pathAbs{live: liveName, state: filepath.Clean(state), idx: map[string]int{}, other: map[string]int{}}
 	counts := map[string]int{} // "pid/name" -> calls so far
 	fdIdx := map[string]int{}  // real fd -> canonical index (descriptors opened on state-directory paths)
 	fdOpen := map[string]bool{}
